@@ -7,6 +7,7 @@ import (
 
 	"pgregory.net/rapid"
 
+	"verif/ev"
 	"verif/ir"
 )
 
@@ -65,6 +66,18 @@ func TimeVal(t *rapid.T) int64 {
 	default:
 		return rapid.Int64().Draw(t, "time")
 	}
+}
+
+// DatetimeVal is TimeVal minus the class of the open known finding "datetime-min-day" (datetimes in the first 24 h
+// of the int64 range cannot be written as text that cedar-go parses); such draws are moved one day up and counted.
+// C12 owns that finding and draws the raw values itself.
+func DatetimeVal(t *rapid.T) int64 {
+	v := TimeVal(t)
+	if v < math.MinInt64+86400000 && ev.KnownOpen("C12", "datetime-min-day") {
+		ev.R.Excluded("datetime-min-day")
+		v += 86400000
+	}
+	return v
 }
 
 func DecimalVal(t *rapid.T) int64 {
@@ -210,7 +223,7 @@ func ValueOfKind(t *rapid.T, k ir.Kind, depth int, o ValOpts) ir.Value {
 	case ir.KDecimal:
 		return ir.Decimal(DecimalVal(t))
 	case ir.KDatetime:
-		return ir.Datetime(TimeVal(t))
+		return ir.Datetime(DatetimeVal(t))
 	case ir.KDuration:
 		return ir.Duration(TimeVal(t))
 	case ir.KIP:
